@@ -708,6 +708,8 @@ def gen_history(rng, nconn=None, async_=False, profile='mixed', table=None, nops
     from wire import cut
     if scenario == 'reauth_leave':
         return gen_reauth_leave(rng, async_=async_)
+    if scenario == 'reauth_stale':
+        return gen_reauth_stale(rng, async_=async_)
     table = table if table is not None else rng.choice(DB_TABLES)
     nconn = nconn or rng.choice([2, 2, 3, 3, 4, 5])
     name = rng.choice(['hpfeeds', 'b', 'bröker'])
@@ -846,6 +848,63 @@ def gen_reauth_leave(rng, async_=False):
         def __init__(self, q):
             self.q, self.role = q, 'benign'
     return case, [R(0), R(1), R(2)]
+
+
+def gen_reauth_stale(rng, async_=False):
+    """directed history: a connection uses a permission of identity A (publishes / subscribes where A may), authenticates
+    again as B, and then asks for the same thing although B may not: the request must be judged under B.  A listener
+    holds the channel so that a wrongly accepted publish becomes visible."""
+    from wire import cut
+    table = DB_TABLES[0]
+    name = rng.choice(['hpfeeds', 'b'])
+    nonces = [bytes(rng.randrange(256) for _ in range(4)) for _ in range(2)]
+    pairs = []
+    for a, ra in table.items():
+        for b, rb in table.items():
+            if not ra or not rb or a == b or ra[1] is None or rb[1] is None:
+                continue
+            dp = [c for c in ra[1] if c not in rb[1]]
+            ds = [c for c in ra[2] if c not in rb[2]]
+            if dp or ds:
+                pairs.append((a, b, dp, ds))
+    a, b, dp, ds = rng.choice(pairs)
+
+    def auth(q, ident):
+        return auth_frame(ident, digest(nonces[q], table[ident][0]))
+    kind = rng.choice([k for k, d in (('pub', dp), ('sub', ds)) if d])
+    chan = rng.choice(dp if kind == 'pub' else ds)
+    # a listener for that channel (any identity that may subscribe to it)
+    who = [i for i, r in table.items() if r and r[2] and chan in r[2]]
+    events = [['C', 0, jbytes(nonces[0])], ['C', 1, jbytes(nonces[1])]]
+    if who:
+        l = rng.choice(who)
+        events += [['D', 1, jbytes(auth(1, l))], ['D', 1, jbytes(P.msgsubscribe(l, chan))]]
+    frames = [auth(0, a)]
+    for _ in range(rng.randint(1, 3)):
+        frames.append(P.msgpublish(a, chan, gen_payload(rng)) if kind == 'pub' else P.msgsubscribe(a, chan))
+        if kind == 'sub' and rng.random() < 0.5:
+            frames.append(P.msgunsubscribe(a, chan))
+    frames.append(auth(0, b))
+    for c in rng.sample(table[b][2] or [], rng.randint(0, len(table[b][2] or []))):
+        frames.append(P.msgsubscribe(b, c))
+    frames.append(P.msgpublish(b, chan, gen_payload(rng)) if kind == 'pub' else P.msgsubscribe(b, chan))
+    mode = rng.choice(['frames', 'frames', 'frames', 'rand', 'one'])
+    for ch in (frames if mode == 'frames' else cut(rng, b''.join(frames), mode)):
+        events.append(['D', 0, jbytes(ch)])
+        if async_:
+            events.append(gen_lookup(rng, table, 0, None))
+    if kind == 'sub':
+        # if the forbidden subscription was (wrongly) registered, a publish shows it
+        pw = [i for i, r in table.items() if r and r[1] and chan in r[1]]
+        if pw:
+            i = rng.choice(pw)
+            events += [['D', 1, jbytes(auth(1, i))], ['D', 1, jbytes(P.msgpublish(i, chan, gen_payload(rng)))]]
+    case = dict(name=jbytes(name.encode()), db=jdb(table), async_=async_, events=events)
+
+    class R:
+        def __init__(self, q):
+            self.q, self.role = q, 'adversarial' if q == 0 else 'benign'
+    return case, [R(0), R(1)]
 
 
 def gen_lookup(rng, table, q, ident=None):
